@@ -154,3 +154,70 @@ def check_dwt_inverse(cfg, sizes, rnd):
     ok, det = _close(got.numpy(), ref)
     return ok, 'DWTInverse J=%d %s %s HxW=%dx%d Lcol=%d Lrow=%d none=%s: %s' % (
         J, mode, cfg.get('waveform'), H, W, wc.dec_len, wr.dec_len, none_level, det)
+
+
+@register('dwt_grad')
+def check_dwt_grad(cfg, sizes, rnd):
+    """autograd through the real Function vs J^T g with J assembled column by
+    column from the real forward (the transform is linear in its data inputs)"""
+    from pytorch_wavelets.dwt import lowlevel
+    cls, mode = cfg['cls'], cfg['mode']
+    needs = cfg.get('needs', [True, True])
+    one_d = cls.endswith('1D')
+    ana = cls.startswith('AFB')
+    L = 2 * _sz(sizes, 'L2', 2, 1, 8)
+    Lr = 2 * _sz(sizes, 'Lr2', sizes.get('L2', 2), 1, 8)
+    Bn, C = 1, _sz(sizes, 'C', 1, 1, 2)
+    mi = lowlevel.mode_to_int(mode)
+    rs = np.random.RandomState(rnd.randint(0, 10**6))
+
+    def filt(n, shape):
+        return torch.tensor(rs.randn(n)).reshape(shape)
+    if one_d:
+        N = _sz(sizes, 'N', 5, 1, 24)
+        f = [filt(L, (1, 1, L)), filt(L, (1, 1, L))]
+        shapes = [(Bn, C, N)] if ana else [(Bn, C, N), (Bn, C, N)]
+        fn = (lambda *d: lowlevel.AFB1D.apply(d[0], f[0], f[1], mi)) if ana else \
+            (lambda *d: lowlevel.SFB1D.apply(d[0], d[1], f[0], f[1], mi))
+    else:
+        H, W = _sz(sizes, 'H', 5, 1, 12), _sz(sizes, 'W', 4, 1, 12)
+        f = [filt(Lr, (1, 1, 1, Lr)), filt(Lr, (1, 1, 1, Lr)), filt(L, (1, 1, L, 1)), filt(L, (1, 1, L, 1))]
+        shapes = [(Bn, C, H, W)] if ana else [(Bn, C, H, W), (Bn, C, 3, H, W)]
+        fn = (lambda *d: lowlevel.AFB2D.apply(d[0], f[0], f[1], f[2], f[3], mi)) if ana else \
+            (lambda *d: lowlevel.SFB2D.apply(d[0], d[1], f[0], f[1], f[2], f[3], mi))
+    data = [torch.tensor(rs.randn(*s)) for s in shapes]
+
+    def flat(out):
+        outs = out if isinstance(out, tuple) else (out,)
+        return torch.cat([o.reshape(-1) for o in outs])
+    try:
+        y0 = flat(fn(*data))
+    except Exception as e:
+        if mode == 'reflect':
+            return True, 'forward raises as permitted in reflect mode'
+        return True, 'forward raises (%s) - outside the gradient property' % type(e).__name__
+    g = torch.tensor(rs.randn(y0.numel()))
+    det = ''
+    for k, need in enumerate(needs[:len(data)]):
+        if not need:
+            continue
+        # J for input k
+        n = data[k].numel()
+        Jt_g = np.zeros(n)
+        for m in range(n):
+            e = [torch.zeros_like(d) for d in data]
+            e[k].reshape(-1)[m] = 1.0
+            Jt_g[m] = float((flat(fn(*e)) * g).sum())
+        inp = [d.clone().requires_grad_(bool(nd)) for d, nd in zip(data, list(needs) + [False] * 4)]
+        y = flat(fn(*inp))
+        try:
+            gr = torch.autograd.grad((y * g).sum(), inp[k], allow_unused=True)[0]
+        except Exception as e:
+            return False, '%s mode=%s needs=%s: autograd raises %s: %s' % (cls, mode, needs, type(e).__name__, e)
+        if gr is None:
+            return False, '%s mode=%s needs=%s: input %d requires grad but receives None' % (cls, mode, needs, k)
+        ok, det = _close(gr.reshape(-1).numpy(), Jt_g, 1e-8)
+        if not ok:
+            return False, '%s mode=%s needs=%s shapes=%s L=%d: gradient of input %d is not J^T g (%s)' % (
+                cls, mode, needs, shapes, L, k, det)
+    return True, '%s mode=%s needs=%s shapes=%s: %s' % (cls, mode, needs, shapes, det)
